@@ -561,8 +561,9 @@ func c06Stipend(c *eng.Ctx, r *eng.Report) {
 }
 
 // c06BalanceKeyFresh: see R6.9.
-func c06BalanceKeyFresh(c *eng.Ctx, r *eng.Report) {
-	const rule = "R6.9"
+func c06BalanceKeyFresh(c *eng.Ctx, r *eng.Report) { c06BalanceKeyFreshAs(c, r, "R6.9") }
+
+func c06BalanceKeyFreshAs(c *eng.Ctx, r *eng.Report, rule string) {
 	r.Min(rule, 1)
 	fn := c.Func(acctPkg, "(*AccountDB).GetERC20Key")
 	if !r.Anchor(fn != nil, rule, "(*AccountDB).GetERC20Key") {
